@@ -220,9 +220,13 @@ def mro_lookup(cls, name, role="function", after=None):
             m = module_of_real(c.__module__)
             if m is None:
                 return c, None
-            ref = class_member(m, c.__qualname__, name, role)
+            ast_name = name
+            priv = f"_{c.__name__.lstrip('_')}__"
+            if name.startswith(priv) and not name.endswith("__") and c.__name__.lstrip("_"):
+                ast_name = name[len(priv) - 2 :]  # a mangled private name: the class body spells it `__x`
+            ref = class_member(m, c.__qualname__, ast_name, role)
             if ref is None and role == "function":
-                ref = class_member(m, c.__qualname__, name, "getter")
+                ref = class_member(m, c.__qualname__, ast_name, "getter")
             if ref is None:
                 # defined by assignment in the class body (alias) or similar
                 return c, None
